@@ -96,7 +96,7 @@ func c09filter(c *Ctx, fn *ssa.Function, dataType string) {
 		return
 	}
 	// the allow map is filled from every element of the filter field
-	fromFilter := flow.Strict.Any(mset.Key, func(v ssa.Value) bool { _, p, _ := flow.AccessPath(v); return strings.HasSuffix(p, "filter[]") || p == "filter" })
+	fromFilter := flow.Strict.Any(mset.Key, func(v ssa.Value) bool { _, p, _ := flow.AccessPathC(v); return strings.HasSuffix(p, "filter[]") || p == "filter" })
 	if !fromFilter {
 		fromFilter = isFilter(mset.Key)
 	}
@@ -236,7 +236,7 @@ func c09(c *Ctx) {
 			c.R.Unknown(load.FuncName(rec)+": PublishConnection", c.pos(rec.Pos()), "not found")
 		} else {
 			a := cfgx.CallArgs(pc)
-			r, p, ok := flow.AccessPath(a[2])
+			r, p, ok := flow.AccessPathC(a[2])
 			res := cfgx.TupleResult(comp[0], 0)
 			fromRes := ok && p == "ConnectionDetails" && (r == res || flow.Strict.Any(r, func(v ssa.Value) bool { return v == res }))
 			c.R.Check(fromRes, site(pc)+" details", c.pos(pc.Pos()), "publishes res.ConnectionDetails of this reconcile's Compose", "the details published are not res.ConnectionDetails of this reconcile")
@@ -384,7 +384,7 @@ func derefGuarded(c *Ctx, fn *ssa.Function, typ string) int {
 			if !ok {
 				continue
 			}
-			_, p, _ := flow.AccessPath(inner)
+			_, p, _ := flow.AccessPathC(inner)
 			if !strings.Contains(fa.X.Type().String(), typ) {
 				continue
 			}
@@ -405,8 +405,8 @@ func derefGuarded(c *Ctx, fn *ssa.Function, typ string) int {
 					} else {
 						continue
 					}
-					r2, p2, ok2 := flow.AccessPath(other)
-					r1, _, _ := flow.AccessPath(inner)
+					r2, p2, ok2 := flow.AccessPathC(other)
+					r1, _, _ := flow.AccessPathC(inner)
 					if !ok2 || p2 != p || flow.Root(r2) != flow.Root(r1) {
 						continue
 					}
